@@ -6,7 +6,7 @@
 # The scratch copies are removed at the end.  Results: build/sweep/<id>-m<k>.txt and seeded/<id>/m<k>/meta.json.
 n=${1:-3}; shift
 ids="$@"; [ -z "$ids" ] && ids=$(ls /verif/seeded)
-S=/tmp/sweep; mkdir -p $S /verif/build/sweep
+S=${SWEEP_DIR:-/tmp/sweep}; mkdir -p $S /verif/build/sweep
 # SWEEP_ONLY="m4 m5" restricts the sweep to those change numbers
 jobs=(); for id in $ids; do for d in /verif/seeded/$id/m*; do k=$(basename $d); [ -n "$SWEEP_ONLY" ] && ! echo " $SWEEP_ONLY " | grep -q " $k " && continue; [ -f $d/patch.diff ] && jobs+=("$id/$k"); done; done
 echo "${#jobs[@]} seeded changes, $n lanes"
